@@ -114,8 +114,8 @@ inductive It where
   | group (it : It) (eq : P2) (cur : List V) (perm : Permits) (flushed : Bool)
   | windows (it : It) (size : Nat) (mem : List V) (perm : Permits)
   /-- `Zip`: the iterators still to be pulled in this round (front first), the ones already pulled
-  (reversed), the elements collected in this round (reversed) -/
-  | zip (todo : List It) (pulled : List It) (acc : List V)
+  (reversed), the elements collected in this round (reversed), whether an error element was met -/
+  | zip (todo : List It) (pulled : List It) (acc : List V) (bad : Bool)
   /-- `iter` (:457): `_iter` zipped with the consumer's search budget -/
   | budget (it : It) (perm : Permits)
 
@@ -149,7 +149,7 @@ def G.start (L : Option Nat) : G → It
   | .withCount g eq => .withCount (g.start L) eq []
   | .group g eq => .group (g.start L) eq [] (Permits.ofLimit L) false
   | .windows g size => .windows (g.start L) size [] (Permits.ofLimit L)
-  | .zip parts => .zip (G.startAll L parts) [] []
+  | .zip parts => .zip (G.startAll L parts) [] [] false
 def G.startAll (L : Option Nat) : List G → List It
   | [] => []
   | g :: gs => g.start L :: G.startAll L gs
@@ -335,19 +335,23 @@ def step (L : Option Nat) : It → Out
           if mem'.length == size then .yield (.val (.seq mem')) (.windows s size mem'.tail perm')
           else .skip (.windows s size mem' perm')
         | x => .yield x (.windows s size mem perm')
-  -- :170 one round pulls every iterator in turn and stops at the first that does not give a value
-  | .zip [] pulled acc => .yield (.val (.tup acc.reverse)) (.zip pulled.reverse [] [])
-  | .zip (it :: rest) pulled acc =>
+  -- :170 one round pulls every iterator in turn; it stops at the first that is finished or violates;
+  -- an error element makes the round's result that error, the remaining parts are still pulled
+  | .zip [] pulled acc bad =>
+    .yield (if bad then .err else .val (.tup acc.reverse)) (.zip pulled.reverse [] [] false)
+  | .zip (it :: rest) pulled acc bad =>
     match step L it with
     | .done => .done
-    | .skip s => .skip (.zip (s :: rest) pulled acc)
+    | .skip s => .skip (.zip (s :: rest) pulled acc bad)
     | .yield x s =>
       match x with
-      | .val v =>
+      | .viol => .yield .viol (.zip (pulled.reverse ++ s :: rest) [] [] false)
+      | x =>
+        let acc' := match x with | .val v => v :: acc | _ => acc
+        let bad' := match x with | .val _ => bad | _ => true
         match rest with
-        | [] => .yield (.val (.tup (v :: acc).reverse)) (.zip (s :: pulled).reverse [] [])
-        | rest => .skip (.zip rest (s :: pulled) (v :: acc))
-      | x => .yield x (.zip (pulled.reverse ++ s :: rest) [] [])
+        | [] => .yield (if bad' then .err else .val (.tup acc'.reverse)) (.zip (s :: pulled).reverse [] [] false)
+        | rest => .skip (.zip rest (s :: pulled) acc' bad')
   -- :457
   | .budget it perm =>
     match step L it with
